@@ -1,7 +1,6 @@
 package main
 
 import (
-	"errors"
 	"strings"
 
 	"github.com/ucan-wg/go-ucan/pkg/command"
@@ -10,17 +9,10 @@ import (
 func init() { register(&Engine{Name: "command", Gen: genCommand}) }
 
 func cmdParseObs(s string) W {
+	// which of several violated rules is reported is not part of the property: ok / rejected only
 	c, err := command.Parse(s)
 	if err != nil {
-		switch {
-		case errors.Is(err, command.ErrRequiresLeadingSlash):
-			return WErrC(1)
-		case errors.Is(err, command.ErrDisallowsTrailingSlash):
-			return WErrC(2)
-		case errors.Is(err, command.ErrRequiresLowercase):
-			return WErrC(3)
-		}
-		return WErrC(0)
+		return WErr()
 	}
 	return WOk(WStr(string(c)))
 }
